@@ -1362,6 +1362,8 @@ impl BufferParser for Parser {
                         } else {
                             1
                         };
+                        // every step reaches a further tab stop or the right edge, where it stays
+                        let num = min(num, i32::try_from(buf.terminal_state.tab_count()).unwrap_or(i32::MAX).saturating_add(1));
                         (0..num).for_each(|_| caret.set_x_position(buf.terminal_state.next_tab_stop(caret.get_position().x)));
                         // next_tab_stop returns the width when there is no further stop: keep the cursor on the screen
                         buf.terminal_state.limit_caret_pos(buf, caret);
